@@ -46,6 +46,8 @@ def _single_faults(name, layout):
         nr = n // len(last[2])
         for i in range(nr):
             out += [("drop", i), ("dup", i), ("relabel", i), ("extra_row", i)]
+            if len(last[2]) >= 2 and i in (0, nr - 1):
+                out.append(("dup_complementary", i))  # one id row given twice, each copy filling other cells (two half-filled rows)
             for j in range(len(last[2])):
                 out += [("blank_nan", i, j), ("blank_none", i, j)]
         for j in range(len(last[2])):
@@ -198,6 +200,11 @@ def _build(cfg, w):
                 drops.add(f[1])
             elif f[0] == "dup":
                 adds.append([order[f[1]][0], dict(order[f[1]][1])])
+            elif f[0] == "dup_complementary":
+                full = dict(order[f[1]][1])
+                first_it = last[2][0]
+                order[f[1]] = [order[f[1]][0], {it: (full[it] if it == first_it else float("nan")) for it in last[2]}]
+                adds.append([order[f[1]][0], {it: (float("nan") if it == first_it else full[it]) for it in last[2]}])
             elif f[0] == "relabel":
                 c = list(order[f[1]][0])
                 c[0] = _unknown_item(others[0])
@@ -264,6 +271,13 @@ def _build(cfg, w):
         r[0] = typed(r[0])
     labs = [r[0] for r in model_rows]
     dup = len(set(labs)) != len(labs)
+    # duplicated labels whose copies carry different values (or a value and a blank): "every present entry is placed under its
+    # labels" cannot hold for both copies, so such data can only be refused -- whatever the flags
+    seen_vals, dup_conflicting = {}, False
+    for l, v_ in model_rows:
+        if l in seen_vals and not (seen_vals[l] is v_):
+            dup_conflicting = True
+        seen_vals.setdefault(l, v_)
     known = lambda l: all(x in s[2] for x, s in zip(l, spec))
     has_unknown = any(not known(r[0]) for r in model_rows)
     present = {}
@@ -272,7 +286,7 @@ def _build(cfg, w):
             present[l] = v
     expected_labels = [tuple(s[2][i] for s, i in zip(spec, idx)) for idx in np.ndindex(*dims.shape)]
     missing = [l for l in expected_labels if l not in present or blank(present[l])]
-    return dims, X, df, dict(must_raise_always=must_raise_always, dup=dup, has_unknown=has_unknown, missing=missing, present=present, expected_labels=expected_labels,
+    return dims, X, df, dict(must_raise_always=must_raise_always or dup_conflicting, dup=dup, has_unknown=has_unknown, missing=missing, present=present, expected_labels=expected_labels,
                             wide_partial=bool(removed_item_cols))
 
 
@@ -321,7 +335,7 @@ def run(cfg, w):
     spec = DIMSETS[cfg["ds"]]
     should_raise = v["must_raise_always"] or v["dup"] or (v["has_unknown"] and not ae) or (bool(v["missing"]) and not am)
     # duplicates and a missing item column of a wide frame are only specified for the default flags
-    unspecified = (v["dup"] and (am or ae)) or (v["wide_partial"] and am)
+    unspecified = (v["dup"] and (am or ae) and not v["must_raise_always"]) or (v["wide_partial"] and am)
     if cfg["h"] == "reader":
         import flodym.data_reader as dr
 
